@@ -22,6 +22,12 @@ def queued(evaluator_class):  # noqa: D417
         evaluator_class.__init__(self, *args, **kwargs)
 
         self.queue = collections.deque(queue[:])
+        if not (1 <= queue_pop_per_task <= len(self.queue)):
+            # Otherwise no group of resources can ever be formed and the submitted jobs wait forever
+            raise ValueError(
+                f"queue_pop_per_task={queue_pop_per_task} should be between 1 and the number of "
+                f"queued resources ({len(self.queue)})."
+            )
         self.queue_pop_per_task = queue_pop_per_task
         self._queue_sem = None
         self._queue_sem_loop = None
